@@ -383,3 +383,63 @@ def c13_limits(rng, sid, nscen):
                 steps.append(BARRIER)
         out.append({"id": "%s-lim%s%d" % (sid, fam, i), "cfg": cfg, "steps": steps})
     return out
+
+
+def c12_expiry(rng, sid, nscen):
+    """message expiry: publisher interval x configured cap x how long the message waits (subscriber online, offline for
+    0.4 s, offline past the deadline, slow to acknowledge) x versions"""
+    out = []
+    for i in range(nscen):
+        cap = rng.choice([0, 0, 1, 2, 7200])
+        cfg = {"mode": "overlap", "qq0": True, "msgexpiry": cap}
+        steps = []
+        fam = rng.choice(["online", "offline", "slowack"])
+        pver = rng.choice([5, 5, 4])
+        sver = rng.choice([5, 5, 4])
+        exp = {"expiry": 1000} if sver == 5 else {}
+        steps.append(connect(9, "pub", pver))
+        n = 0
+
+        def mk(qos):
+            nonlocal n
+            n += 1
+            me = rng.choice([0, 1, 2, 100, 4294967295]) if pver == 5 else 0
+            return pub(9, "e/t", qos, "e%d" % n, msgexp=me), me
+        if fam == "online":
+            steps += [connect(1, "s", sver, clean=True, **exp), sub(1, [{"n": "e/#", "qos": 2}])]
+            for _ in range(rng.randrange(2, 6)):
+                st, me = mk(rng.randrange(3))
+                steps.append(st)
+                if rng.random() < 0.3:
+                    steps.append(api("e/t", rng.randrange(3), "a%d" % n))
+            steps.append(BARRIER)
+        elif fam == "offline":
+            steps += [connect(1, "s", sver, clean=(sver == 5), **exp), sub(1, [{"n": "e/#", "qos": 2}]), BARRIER, {"op": "abort", "k": 1}]
+            lifetimes = []
+            for _ in range(rng.randrange(1, 4)):
+                st, me = mk(rng.choice([1, 2]))
+                steps.append(st)
+                L = (me if (me and (cap == 0 or me <= cap)) else cap) if cap else me
+                lifetimes.append(L)
+            # choose a waiting time that keeps >= 400 ms away from every deadline
+            cands = [400, 1500, 2600, 3500]
+            ok = [w for w in cands if all(L == 0 or abs(L * 1000 - w) >= 450 for L in lifetimes)]
+            w = rng.choice(ok or [400])
+            steps.append({"op": "sleep", "ms": w})
+            steps += [connect(2, "s", sver, clean=False, **exp), BARRIER]
+        else:
+            # slow acker: window 1; the first message is held unacknowledged while the second waits in the queue
+            steps += [connect(1, "s", 5, clean=True, manualack=True, recvmax=1, expiry=1000), sub(1, [{"n": "e/#", "qos": 1}])]
+            steps.append(pub(9, "e/t", 1, "hold"))
+            st, me = mk(1)
+            steps.append(st)
+            L = (me if (me and (cap == 0 or me <= cap)) else cap) if cap else me
+            cands = [300, 1500, 2600]
+            ok = [w for w in cands if L == 0 or abs(L * 1000 - w) >= 450]
+            steps.append({"op": "sleep", "ms": rng.choice(ok or [300])})
+            steps.append({"op": "ack", "k": 1, "t": "auto", "sel": 0})
+            steps.append(BARRIER)
+            steps.append({"op": "ack", "k": 1, "t": "auto", "sel": 0})
+            steps.append(BARRIER)
+        out.append({"id": "%s-exp%d" % (sid, i), "cfg": cfg, "steps": steps})
+    return out
